@@ -36,7 +36,7 @@ def plan(tier):
 
 def floors(tier):
     return {"nontrivial": 50, "held:main": 150, "held:integrated": 40, "counter:rhs_checks": 500, "counter:jacobian_checks": 500,
-            "counter:integrated_sensitivity_checks": 100, "counter:parameter_changes_between_evaluations": 150, "class:single-state": 10, "class:parameter-free": 10, "class:nP!=nS-1": 60,
+            "counter:integrated_sensitivity_checks": 100, "counter:parameter_changes_between_evaluations": 150, "counter:z_form_int-list": 60, "counter:z_form_int64-array": 60, "counter:z_form_float-list": 60, "class:single-state": 10, "class:parameter-free": 10, "class:nP!=nS-1": 60,
             "class:time-dependent": 15, "class:derived-param": 15}
 
 
@@ -143,16 +143,27 @@ def run_case(rng, idx, tier, lane, ctx):
                   if not iv and nP == 0:
                       continue
                   label = ("ode_and_sensitivityIV" if iv else "ode_and_sensitivity") + ("(by_state=True)" if by_state else "")
-                  z = np.array(list(x) + [rng.uniform(-2, 2) for _ in range(nS * nP + (nS * nS if iv else 0))], dtype=float)
+                  # the augmented point as a caller may hold it: float ndarray, list of floats, or WHOLE numbers held as Python ints /
+                  # integer-dtype arrays (the value of the right-hand side does not depend on the number type of its argument)
+                  z_form = rng.choice(["float-array", "float-array", "float-list", "int-list", "int64-array", "int32-array", "int-tuple"])
+                  if z_form.startswith("int"):
+                      zvals = [int(max(1, round(v))) for v in x] + [rng.randint(-3, 3) for _ in range(nS * nP + (nS * nS if iv else 0))]
+                      z = np.array(zvals, dtype=float)
+                      z_arg = {"int-list": list(zvals), "int-tuple": tuple(zvals), "int64-array": np.array(zvals, dtype=np.int64),
+                               "int32-array": np.array(zvals, dtype=np.int32)}[z_form]
+                  else:
+                      z = np.array(list(x) + [rng.uniform(-2, 2) for _ in range(nS * nP + (nS * nS if iv else 0))], dtype=float)
+                      z_arg = z.copy() if z_form == "float-array" else z.tolist()
+                  counters["z_form_" + z_form] = counters.get("z_form_" + z_form, 0) + 1
                   rr = ref_rhs(ref, th, by_state, iv)
                   exp = rr(z, t)
                   try:
                       with contextlib.redirect_stdout(io.StringIO()):
-                          got = np.asarray(m.ode_and_sensitivityIV(z, t) if iv else m.ode_and_sensitivity(z, t, by_state), dtype=float).reshape(-1)
+                          got = np.asarray(m.ode_and_sensitivityIV(z_arg, t) if iv else m.ode_and_sensitivity(z_arg, t, by_state), dtype=float).reshape(-1)
                       counters["rhs_checks"] += 1
                       sc = 1.0 + float(np.max(np.abs(exp)))
                       if got.shape != exp.shape or not np.all(np.abs(got - exp) <= 1e-10 * sc):
-                          bad("%s differs from [f, vec(J S + G)(, vec(J S0))] in the documented layout" % label, got=got.tolist(), expected=exp.tolist(), round=rnd)
+                          bad("%s differs from [f, vec(J S + G)(, vec(J S0))] in the documented layout" % label, got=got.tolist(), expected=exp.tolist(), round=rnd, z_given_as=z_form)
                   except Exception as e:
                       bad("%s raised" % label, error=short_exc(e), tb=tb_tail(e))
                   jl = label.replace("ode_and_sensitivityIV", "ode_and_sensitivityIV_jacobian").replace("ode_and_sensitivity(", "ode_and_sensitivity_jacobian(")
@@ -160,7 +171,7 @@ def run_case(rng, idx, tier, lane, ctx):
                       jl = label + "_jacobian"
                   try:
                       with contextlib.redirect_stdout(io.StringIO()):
-                          gotJ = np.asarray(m.ode_and_sensitivityIV_jacobian(z, t) if iv else m.ode_and_sensitivity_jacobian(z, t, by_state), dtype=float)
+                          gotJ = np.asarray(m.ode_and_sensitivityIV_jacobian(z_arg, t) if iv else m.ode_and_sensitivity_jacobian(z_arg, t, by_state), dtype=float)
                       counters["jacobian_checks"] += 1
                       expJ = fd_jacobian(rr, z, t)
                       sc = 1.0 + float(np.max(np.abs(expJ)))
